@@ -120,6 +120,10 @@ def make_kwargs(pm, opts):
                  'remove_class_attribute_annotations'):
             ann[k] = v
         else:
+            if PY2 and isinstance(v, unicode):
+                v = v.encode('ascii')
+            elif PY2 and isinstance(v, list):
+                v = [x.encode('ascii') if isinstance(x, unicode) else x for x in v]
             kw[str(k)] = v
     if ann:
         full = dict(remove_variable_annotations=True, remove_return_annotations=True, remove_argument_annotations=True,
@@ -236,7 +240,19 @@ def op_mc(case, pm):
 
 
 def _value_key(v):
-    return '%s:%r' % (type(v).__name__, v)
+    if isinstance(v, (list, tuple)):
+        return type(v).__name__ + '[' + ','.join(_value_key(x) for x in v) + ']'
+    if isinstance(v, dict):
+        return 'dict{' + ','.join(sorted(_value_key(k) + '=' + _value_key(x) for k, x in v.items())) + '}'
+    try:
+        if isinstance(v, int) and not isinstance(v, bool) and v.bit_length() > 9000:
+            return 'int:bits%d:%d' % (v.bit_length(), v % 2305843009213693951)
+    except Exception:
+        pass
+    try:
+        return '%s:%r' % (type(v).__name__, v)
+    except Exception as e:
+        return '%s:unreprable:%s' % (type(v).__name__, type(e).__name__)
 
 
 def _eval_stmt_value(text):
